@@ -2,3 +2,4 @@ pub mod c06;
 pub mod c01;
 pub mod c13;
 pub mod c09;
+pub mod c07;
